@@ -105,4 +105,8 @@ def extra_contracts():
     # ... and "if the body fails or is cancelled the remaining spawned tasks are cancelled rather than awaited indefinitely"
     # also when the cancellation arrives while the disposables are exiting: the scope recognises it by its class, so the
     # disposables' exit must answer it with CancelledError itself, not with a group wrapping it
-    return [variant(StreamBody, "C06", ("C06-P6",)), variant(Exit, "C06", ("P4:a-cancelled-exit-raises-CancelledError",))]
+    # ... and "cancelled rather than awaited indefinitely" for tasks blocked on the library's own suspension primitive, the
+    # AsyncQueue: a cancelled receive ends cancelled (C17-P2), it never returns normally
+    from .C17 import Next
+    return [variant(StreamBody, "C06", ("C06-P6",)), variant(Exit, "C06", ("P4:a-cancelled-exit-raises-CancelledError",)),
+            variant(Next, "C06", ("P2:a-cancelled-receive", "P2:cancelled-receive"))]
